@@ -73,6 +73,27 @@ var skelItems = []skelItem{
 	{"Reader", "core/asn1parser/asn1parser.go", "", "IsContextSpecificTagWithId"},
 	{"Reader", "core/asn1parser/asn1parser.go", "", "IsContextSpecificTag"},
 	{"Reader", "core/asn1parser/asn1parser.go", "", "GetContextSpecificTagId"},
+	// issuer / subject names as the stores and the OCSP cache key see them
+	{"Repo", "core/asn1parser/asn1parser.go", "", "ParseIssuerRDNSequence"},
+	{"Repo", "core/asn1parser/asn1parser.go", "", "ParseSubjectRDNSequence"},
+	{"Repo", "core/asn1parser/asn1parser.go", "", "ParseRDNSequence"},
+	{"Ocsp", "core/asn1parser/asn1parser.go", "", "ParseIssuerRDNSequence"},
+	{"Ocsp", "core/asn1parser/asn1parser.go", "", "ParseRDNSequence"},
+	{"Cand", "core/asn1parser/asn1parser.go", "", "ParseIssuerRDNSequence"},
+	{"Cand", "core/asn1parser/asn1parser.go", "", "ParseSubjectRDNSequence"},
+	{"Cand", "core/asn1parser/asn1parser.go", "", "ParseRDNSequence"},
+	{"Cand", "crl/crlreader/extensionsupport/extensionsupport.go", "*", ""},
+	{"Cand", "crl/crlrepository/crlrepository.go", "", "verifyCRLSignature"},
+	{"Cand", "core/signatureverify/hashandverifystrategieslookup.go", "*", ""},
+	{"Cand", "core/signatureverify/rsasignatureverifystrategy.go", "*", ""},
+	{"Cand", "core/signatureverify/ecdsasignatureverifystrategy.go", "*", ""},
+	// the loaders: location identifiers and what is fetched (paths, C20; download, C17)
+	{"Loader", "crl/crlloader/urlcrlloader.go", "*", ""},
+	{"Loader", "crl/crlloader/filecrlloader.go", "*", ""},
+	{"Loader", "crl/crlloader/multischemescrlloader.go", "*", ""},
+	{"Loader", "crl/crlloader/crlloaderfactory.go", "*", ""},
+	{"Loader", "crl/crlloader/crlloader.go", "*", ""},
+	{"Loader", "core/utils/utils.go", "*", ""},
 	// crlreader
 	{"Reader", "crl/crlreader/crlreader.go", "StreamingCRLFileReader", "ReadCRL"},
 	{"Reader", "crl/crlreader/crlreader.go", "", "findAlgorithmIdentifierInCRL"},
@@ -108,6 +129,14 @@ var skelFiles = []struct{ group, rel string }{
 func (c *ctx) skelFileItems() []skelItem {
 	var out []skelItem
 	for _, sf := range skelFiles {
+		out = append(out, c.fileFuncs(sf.group, sf.rel)...)
+	}
+	return out
+}
+
+func (c *ctx) fileFuncs(group, rel string) []skelItem {
+	var out []skelItem
+	for _, sf := range []struct{ group, rel string }{{group, rel}} {
 		for _, d := range c.file(sf.rel).Decls {
 			fd, ok := d.(*ast.FuncDecl)
 			if !ok {
@@ -230,7 +259,15 @@ func genSkeleton(c *ctx, out string) {
 	var txt strings.Builder
 	groups := []string{}
 	byGroup := map[string][][2]string{}
-	for _, it := range append(append([]skelItem{}, skelItems...), c.skelFileItems()...) {
+	var all []skelItem
+	for _, it := range skelItems {
+		if it.recv == "*" {
+			all = append(all, c.fileFuncs(it.group, it.rel)...)
+		} else {
+			all = append(all, it)
+		}
+	}
+	for _, it := range append(all, c.skelFileItems()...) {
 		t := c.skeletonText(it)
 		sum := sha256.Sum256([]byte(t))
 		h := hex.EncodeToString(sum[:8])
